@@ -10,7 +10,12 @@ from sysloss.components import Source, Converter, PLoad, RLoad, ILoad, LinReg, R
 PROP = "C18"
 ANS = {"c": (0.12, 0.0, 0.0), "v": (0.03, -0.1, 0.0), "r": (0.02, 0.0, 0.05), "z": (0.02, 0.0, "zero")}  # six steps of any kind keep the battery alive
 TERM = {"Z": "capzero", "K": "vcut", "U": "vbelow"}
-PHASES = {"none": None, "two": {"a": 10.0, "b": 25.0}, "three": {"a": 10.0, "b": 25.0, "c": 5.0}}
+PHASES = {"none": None, "two": {"a": 10.0, "b": 25.0}, "three": {"a": 10.0, "b": 25.0, "c": 5.0},
+          "blank": {"": 10.0, "b": 25.0}}   # set_sys_phases() accepts the empty string as a phase name: it is a phase like any other
+
+
+GARBAGE = {"pfunc-inf": (float("inf"), 4.1, 0.7), "pfunc-nan": (float("nan"), 4.1, 0.7), "pfunc-short": (0.01, 4.1), "pfunc-none": None,
+           "pfunc-str": ("0.01", "4.1", "0.7"), "pfunc-neg": (-1.0, 4.1, 0.7), "pfunc-huge": (1e300, 4.1, 0.7), "pfunc-low": (0.01, 1.0, 0.7)}
 
 
 class Boom(Exception):
@@ -70,6 +75,8 @@ def run_seq(variant, phname, seq, cutoff=3.0, cap0=0.01, V0=3.7, R0=0.1, fault=N
         npf[0] += 1
         if fault == "pfunc":
             raise Boom()
+        if fault in GARBAGE:   # a model that answers nonsense: whatever batt_life() does with it, the battery gets its own vo / rs back
+            return GARBAGE[fault]
         return st if alias else tuple(st)   # alias: the model hands out its own mutable state object every time
 
     def df(t, i):
@@ -80,6 +87,8 @@ def run_seq(variant, phname, seq, cutoff=3.0, cap0=0.01, V0=3.7, R0=0.1, fault=N
             raise Boom()
         if a == "Y":
             raise Abort()
+        if a in "GNSQ":   # the deplete callback answers nonsense at this call
+            return {"G": None, "N": (float("nan"), float("nan"), float("nan")), "S": (st[0], st[1]), "Q": ("1", "2", "3")}[a]
         if a in TERM:
             if TERM[a] == "capzero":
                 st[0] = 0.0
@@ -200,7 +209,7 @@ def gen_cases(tier):
                     for body in itertools.product("cvrz", repeat=k):
                         if "z" in body:
                             yield dict(variant=variant, phases=phname, seq="".join(body) + "Z")
-            if phname != "none":  # battery with its own phase list (a proper subset of the phases)
+            if phname not in ("none", "blank"):  # battery with its own phase list (a proper subset of the phases)
                 for bpc in ([0], [1]) if phname == "two" else ([0, 2], [1]):
                     for k in range(0, min(K, 4) + 1):
                         for body in itertools.product("cvr", repeat=k):
@@ -228,7 +237,7 @@ def replay(doc):
 def main(tier):
     run = Run(PROP, tier, replay)
     run.map(check_case, itertools.chain(gen_cases(tier), gen_slow()), chunk=8, family="answers")
-    for c in ("end:Z", "end:K", "end:U", "cycled:two", "cycled:three"):
+    for c in ("end:Z", "end:K", "end:U", "cycled:two", "cycled:three", "cycled:blank"):
         run.require(c in run.classes, "class %s never observed" % c)
     return run.finish(
         level="model_checking",
